@@ -65,7 +65,9 @@ def cpp_specs(ctx, files_quick=7, per_file=80, rand_files_quick=2, rand_per_file
                            ['u8', 'TU64*', 'u8'], ['TTU64*', 'u16'], ['u8', 'TFx8*'], ['TTFx8*', 'TTU64*', 'u8'],
                            ['u8', 'TTU64', 'u8'], ['u16', 'TTU64[2]', 'u8<>', 'TTU64*'],
                            # optionals whose value type has a C++ object size different from its wire size
-                           ['Un4*', 'u8'], ['u8', 'Un8*', 'u16'], ['Un12*'], ['u8', 'FxO*', 'u8'], ['Un4*', 'FxO*', 'u8<>']]})
+                           ['Un4*', 'u8'], ['u8', 'Un8*', 'u16'], ['Un12*'], ['u8', 'FxO*', 'u8'], ['Un4*', 'FxO*', 'u8<>'],
+                           # ten levels of nesting (rendering indentation, recursion in codecs)
+                           ['u8', 'Deep10'], ['Deep10<>', 'u8']]})
     nrf = ctx.pick(rand_files_quick, rand_files_thorough)
     for i in range(nrf):
         seeds = [ctx.seed * 100000 + 7000 + i * rand_per_file + k for k in range(rand_per_file)]
@@ -82,10 +84,32 @@ def build_schema(spec):
     return sch, [spec['type']], {spec['type']: ['replay']}
 
 
+# an unrelated schema generated FIRST in every worker process: the helper types' names with other sizes, alignments and
+# stiffness, used in the positions where a generator might remember something by type name
+DECOY_FULL = ('struct Fx2 { u64 a; u64 b; u8 c; };\nstruct Fx8 { u8 a; };\nstruct Fx1 { u32 a; };\nstruct FxO { u8 a; };\n'
+              'enum En { En_A = 7 };\nstruct Dy4 { u64 q; u64 x<>; };\ntypedef Dy4 TDy4;\ntypedef Fx2 TFx2;\n'
+              'struct Dy8 { u8 x<>; };\nstruct Dy1 { u64 x<>; };\nunion Un4 { 1: u64 a; };\nunion Un8 { 1: u8 a; };\n'
+              'union Un12 { 1: u8 a; };\nstruct Fx12 { u8 a; };\ntypedef u8 TU64;\ntypedef TU64 TTU64;\n'
+              'typedef Fx8 TFx8;\ntypedef TFx8 TTFx8;\n'
+              'struct DecoyA { Fx2 a<>; Fx8 b<>; Fx1 c<>; En d<>; };\nstruct DecoyB { Dy4 a<>; };\nstruct DecoyC { TDy4 a<>; };\n'
+              'struct DecoyD { u8 p; Fx2 g<...>; };\nstruct DecoyE { TU64* a; TTU64* b; Fx8* c; TFx8* d; Un8* e; Un4* f; FxO* g; TFx2* h; u8 z; };\n'
+              'struct DecoyF { Fx2 a[2]; FxO b<2>; Un12 c; Fx12 d; TTFx8 e; };\n')
+_decoy_done = []
+
+
 def open_full(spec, acc, wd, want_python=False):
     """Compile the schema's C++ full codec with the driver. Returns dict or None on prerequisite failure."""
     sch, names, tagmap = build_schema(spec)
     text = sch.to_prophy()
+    if not _decoy_done and spec['kind'] != 'replay':
+        _decoy_done.append(1)
+        wd0 = os.path.join(wd, 'decoy_first')
+        os.makedirs(wd0)
+        try:
+            cppdrv.prophyc_cpp(DECOY_FULL, wd0, name='decoy', full=True, raw=True, python=want_python)
+            acc.count('decoy_compiled_first_in_the_process')
+        except cppdrv.BuildFailed as e:
+            acc.prereq({'stage': e.stage, 'error': 'decoy: ' + str(e)[-800:]})
     try:
         gen, nodes = cppdrv.prophyc_cpp(text, wd, full=True, python=want_python)
         src = os.path.join(wd, 'drv.cpp')
